@@ -504,7 +504,7 @@ pub fn gen_ext_known(t: &mut Tape, idx: usize, budget: usize) -> MExt {
     match KNOWN_EXT_TYPES[idx] {
         0 => {
             let n = t.small(5);
-            MExt::Sni((0..n).map(|_| (if t.chance(200) { 0 } else { t.u8() }, t.small_blob(b.min(300)))).collect())
+            MExt::Sni((0..n).map(|_| (if t.chance(200) { 0 } else { t.u8() }, if t.chance(90) { t.utf8_text(b.min(600)) } else { t.small_blob(b.min(300)) })).collect())
         }
         1 => MExt::MaxFragmentLength(t.u8()),
         5 => MExt::StatusRequest(if t.chance(60) { None } else { Some((if t.bool() { 1 } else { t.u8() }, t.small_blob(b.saturating_sub(1).min(400)))) }),
@@ -514,7 +514,7 @@ pub fn gen_ext_known(t: &mut Tape, idx: usize, budget: usize) -> MExt {
         15 => MExt::Heartbeat(t.u8()),
         16 => {
             let n = t.small(6);
-            MExt::Alpn((0..n).map(|_| t.small_blob(b.min(255) / 2)).collect())
+            MExt::Alpn((0..n).map(|_| if t.chance(90) { t.utf8_text(b.min(255)) } else { t.small_blob(b.min(255) / 2) }).collect())
         }
         18 => MExt::Sct(if t.chance(80) { None } else { Some(t.small_blob(b.saturating_sub(2).min(500))) }),
         21 => MExt::Padding(t.blob(b.min(600))),
@@ -1001,6 +1001,8 @@ pub struct MSct {
     pub extensions: Vec<u8>,
     pub hash: u8,
     pub sign: u8,
+    /// the signature carries its (hash, signature) algorithm pair; always true on the wire (RFC 6962 uses the RFC 5246 form)
+    pub alg_present: bool,
     pub signature: Vec<u8>,
 }
 
@@ -1096,7 +1098,7 @@ pub fn gen_sct(t: &mut Tape, budget: usize) -> MSct {
     let b = budget.saturating_sub(47);
     let extensions = t.blob((b / 2).min(65535));
     let signature = t.blob((b - extensions.len()).min(65535));
-    MSct { version: if t.chance(128) { 0 } else { t.u8() }, id: t.bytes(32), timestamp: t.u64b(), extensions, hash: t.u8(), sign: t.u8(), signature }
+    MSct { version: if t.chance(128) { 0 } else { t.u8() }, id: t.bytes(32), timestamp: t.u64b(), extensions, hash: t.u8(), sign: t.u8(), alg_present: true, signature }
 }
 
 pub fn gen_sct_list(t: &mut Tape) -> Vec<MSct> {
